@@ -13,7 +13,7 @@ cleanup() { git -C /repo worktree remove --force "$wt" >/dev/null 2>&1; rm -rf "
 trap cleanup EXIT
 mkdir -p "$wt/tmp"
 demo=$(ls "$seed"/demo_test.go 2>/dev/null || true)
-tagarg=""; [ -n "$tags" ] && tagarg="-tags $tags"
+tagarg=""; [ -n "$tags" ] && tagarg="-tags $tags"; [ "$tags" = "race" ] && tagarg="-race"
 if [ -z "$demo" ] && [ -f "$seed/demo/main.go" ]; then demo="$seed/demo/main.go"; prog=1; else prog=0; fi
 mkdir -p "$wt/$dest"; rundemo() { if [ $prog -eq 1 ]; then ( cd "$wt" && mkdir -p zz_seed_demo && cp "$demo" zz_seed_demo/main.go && go run -mod=mod $tagarg ./zz_seed_demo > "$wt/tmp/demo.log" 2>&1; rc=$?; rm -rf zz_seed_demo; exit $rc ); return $?; fi; ( cd "$wt" && cp "$demo" "$dest/zz_seed_demo_test.go" && go test -mod=mod -vet=off -count=1 $tagarg -run "$run" "./$dest" > "$wt/tmp/demo.log" 2>&1; rc=$?; rm -f "$dest/zz_seed_demo_test.go"; exit $rc ); }
 rundemo; without=$?
@@ -21,7 +21,14 @@ git -C "$wt" apply --whitespace=nowarn "$seed/patch.diff" || { echo "PATCH-DOES-
 rundemo; with=$?
 demotail=$(tail -5 "$wt/tmp/demo.log" | cut -c1-300)
 ( cd "$wt" && go test -mod=mod -vet=off -count=1 ./... > "$wt/tmp/suite.log" 2>&1 )
-suite_fail=$(grep -E "^(FAIL|---.FAIL|panic:)" "$wt/tmp/suite.log" | grep -v -E "internal/repository/content |internal/utils/grpc/streamwriter|pkg/test|^FAIL$" | head -5)
+failing_pkgs() { grep -E "^FAIL\s" "$1" | grep -v -E "internal/repository/content|internal/utils/grpc/streamwriter|pkg/test|build failed" | awk '{print $2}' | sort -u; }
+pk=$(failing_pkgs "$wt/tmp/suite.log")
+for attempt in 1 2; do   # some baseline tests are flaky under load: only persistent failures count
+  [ -z "$pk" ] && break
+  ( cd "$wt" && go test -mod=mod -vet=off -count=1 $pk > "$wt/tmp/suite-retry.log" 2>&1 )
+  pk=$(failing_pkgs "$wt/tmp/suite-retry.log")
+done
+suite_fail="$pk"
 echo "demo without patch: exit $without (want 0); with patch: exit $with (want !=0); suite extra failures: [${suite_fail}]"
 results=""
 for prop in "$@"; do
@@ -29,9 +36,9 @@ for prop in "$@"; do
   VERIF_REPO="$wt" VERIF_OUT_DIR="$out" /verif/run "$prop" quick > "$out/log" 2>&1; code=$?
   if [ $code -eq 1 ] && grep -q "^VIOLATION property=$prop" "$out/log"; then
     sig=$(grep -m1 '  sig:' "$out/log" | sed 's/^  sig: //' | cut -c1-160)
-    echo "  $prop DETECTED: $sig"; results="$results$prop:detected:$sig|"
+    echo "  $prop DETECTED: $sig"; results="$results$prop\x1fdetected\x1f$sig\x1e"
   else
-    echo "  $prop MISSED (exit $code): $(tail -1 "$out/log" | cut -c1-120)"; results="$results$prop:missed:exit $code|"
+    echo "  $prop MISSED (exit $code): $(tail -1 "$out/log" | cut -c1-120)"; results="$results$prop\x1fmissed\x1fexit $code\x1e"
   fi
 done
 if [ $without -eq 0 ] && [ $with -ne 0 ] && [ -z "$suite_fail" ]; then
@@ -41,11 +48,12 @@ if [ $without -eq 0 ] && [ $with -ne 0 ] && [ -z "$suite_fail" ]; then
 import json,sys
 out,id_,dest,run,tags,needs,results,demotail=sys.argv[1:9]
 res={}
-for r in results.strip('|').split('|'):
+results=results.replace('\\x1f','\x1f').replace('\\x1e','\x1e')
+for r in results.strip('\x1e').split('\x1e'):
     if not r: continue
-    p,st,sig=r.split(':',2); res[p]={"outcome":st,"signature_or_exit":sig}
+    p,st,sig=r.split('\x1f',2); res[p]={"outcome":st,"signature_or_exit":sig}
 json.dump({"id":id_,"breaks_property":id_.split('-')[0],"needs_to_manifest":needs,
- "demonstration":{"file":"demo_test.go","copy_to":dest,"run":f"go test -mod=mod -vet=off -count=1 {('-tags '+tags) if tags else ''} -run '{run}' ./{dest}","without_patch":"passes","with_patch":"fails","tail_of_failing_output":demotail},
+ "demonstration":{"file":"demo_test.go","copy_to":dest,"run":f"go test -mod=mod -vet=off -count=1 {('-race' if tags=='race' else '-tags '+tags) if tags else ''} -run '{run}' ./{dest}","without_patch":"passes","with_patch":"fails","tail_of_failing_output":demotail},
  "suite_with_patch":"all baseline packages ok (only the pre-existing build failures of tag-dependent packages)",
  "what_was_run":"tools/confirm_seed.sh: scratch worktree of /repo under /tmp; demo without and with the patch; go test ./...; then ./run <check> quick with VERIF_REPO pointing at the patched worktree",
  "checks":res}, open(out,'w'), indent=1)
